@@ -152,6 +152,14 @@ func (cs *ContractSet) loadFile(path, repo string) error {
 	}
 	var c *Contract
 	var fileUses []string
+	var fileContracts []*Contract
+	defer func() {
+		for _, fc := range fileContracts {
+			if fc != nil {
+				fc.Uses = append(fc.Uses, fileUses...)
+			}
+		}
+	}()
 	for _, l := range lines {
 		text := strings.TrimSpace(l.text)
 		kw, rest := splitWord(text)
@@ -163,16 +171,13 @@ func (cs *ContractSet) loadFile(path, repo string) error {
 			pkgPath = strings.TrimSpace(rest)
 			continue
 		case "uses":
-			if c == nil {
-				fileUses = append(fileUses, strings.Fields(rest)...)
-			} else {
-				c.Uses = append(c.Uses, strings.Fields(rest)...)
-			}
+			fileUses = append(fileUses, strings.Fields(rest)...)
+			fileContracts = append(fileContracts, nil)
 			continue
 		case "contract", "iface":
 			name := strings.TrimSpace(rest)
 			c = &Contract{Pkg: pkgPath, Func: name, Mode: "bits", Loops: map[int]*LoopSpec{}, File: path, Line: l.line}
-			c.Uses = append(c.Uses, fileUses...)
+			fileContracts = append(fileContracts, c)
 			cs.ByFunc[c.Key()] = append(cs.ByFunc[c.Key()], c)
 			continue
 		}
